@@ -69,7 +69,7 @@ Verdict legend
 | svg/tree.go:149                        | inheritDefs                | tree.defs                          | DISJ per gradient/pattern (inheritElement is idempotent after deleting "href") |
 | svg/tree.go:170                        | inheritElement             | parent.attrs                       | FILL |
 | svg/tree.go:192                        | cascadedNode.copy          | c.attrs                            | COPY |
-| text/quotes.go:141                     | GetLangQuotes              | langQuotes                         | **DEP** KF15-4 — first key that is a prefix of `lang`, in map order; MODEL langQuotes: lang_quotes_not_perm_invariant, lang_quotes_perm_invariant_partial |
+| text/quotes.go:155                     | langQuotesKeys initialiser | langQuotes                         | INIT: the keys are collected once and SORTED (fix 6df2af4 of KF15-4); GetLangQuotes walks that slice — MODEL langQuotes: lang_quotes_perm_invariant; before the fix **DEP**: lang_quotes_before_fix_not_perm_invariant |
 | text/style.go:236                      | featureSet.list            | fs                                 | list of DISTINCT OpenType feature tags handed to the shaper; the order of distinct tags does not change shaping (assumption about the text engine; runtime evidence) |
 | text/style.go:317                      | getFontFeatures            | ligatureKeys                       | DISJ: features[key] = 0 |
 | utils/utils.go:27,39                   | Set.Copy / Set.Equal       | s                                  | COPY / ANY |
